@@ -495,7 +495,12 @@ func (f *CallForm) TransitionNP(process *Process, re *RuntimeEnvironment) {
 	}
 
 	// Always perform DUP before CALL, so that if self is passed as the first parameter, then we can safely substitute the first provider
-	TransitionInternally(process, callRule, re)
+	if len(process.Providers) > 1 {
+		// Duplicate using the non-polarized rule (the polarized one would spawn polarized forwards)
+		process.performDUPruleNP(re)
+	} else {
+		TransitionInternally(process, callRule, re)
+	}
 
 	// // Always perform CALL before DUP
 	// prioritiseCallRule := true
